@@ -193,7 +193,7 @@ def infer_module(sess: Session, env: list[tuple[str, X.Ty]], exprs: list[tuple[s
 	for (kind, e), st in zip(exprs, stmts):
 		try:
 			sx = X.node_sexp(st.value)
-		except X.Unsupported:
+		except Exception:  # noqa: BLE001 - X.Unsupported, or a node the serialiser cannot read: not a case of this stream (the search still sees the expression)
 			continue
 		real = real_type(refl, st.value)
 		out.append(({'kind': kind, 'expr': e, 'real': real}, [f'infer\t{envx}\t{sx}'], [real]))
@@ -263,7 +263,7 @@ def stream_programs(ctx: Ctx) -> Stream:
 	skipped = 0
 	sess = Session(ctx)
 	dl = Deadline(ctx, 25, 400)
-	for i in range(ctx.scale(20, 300)):
+	for i in range(ctx.scale(14, 300)):
 		if i >= 5 and dl.over():
 			break
 		if i % 50 == 49:
@@ -418,7 +418,7 @@ def stream_spread(ctx: Ctx) -> Stream:
 			try:
 				sp = st.value.values[0]
 				sx = X.node_sexp(sp.expression)
-			except (X.Unsupported, AttributeError, IndexError):
+			except Exception:  # noqa: BLE001 - X.Unsupported / not a spread node
 				continue
 			r = real_type(refl, sp)
 			cases.append(({'expr': e, 'real': r}, ['new', f'spread\t{envx}\t{sx}'] if not cases else [f'spread\t{envx}\t{sx}'], ['ok', r] if not cases else [r]))
@@ -744,7 +744,7 @@ def search_programs(ctx: Ctx) -> SearchResult:
 	sess = Session(ctx)
 	seen: set[str] = set()
 	dl = Deadline(ctx, 25, 300)
-	for pi in range(ctx.scale(24, 400)):
+	for pi in range(ctx.scale(18, 400)):
 		if pi >= 6 and dl.over():
 			break
 		if pi % 60 == 59:
@@ -771,7 +771,7 @@ def search_typed_programs(ctx: Ctx) -> SearchResult:
 	sess = Session(ctx)
 	seen: set[str] = set()
 	dl = Deadline(ctx, 40, 500)
-	for pi in range(ctx.scale(16, 250)):
+	for pi in range(ctx.scale(12, 250)):
 		if pi >= 6 and dl.over():
 			break
 		if pi % 40 == 39:
@@ -808,6 +808,8 @@ STATEMENTS: dict[str, str] = {
 	'user_operator_left_decides': 'one step of each_binary_operator on the model: once the LEFT operand\'s try_operation answers, that is the type — whatever the right operand\'s class declares for the operator (the swapped attempt is a fallback only)',
 	'user_operator_partial': 'x op y with x an instance of a user class whose operator method (found through the chain) takes the class P, y an instance of P or of a class with P among its DIRECT bases: typed by the declared result of type(x).<dunder>, the method CPython calls (tryOpUser = try_operation incl. the inherits loop, traits.py:178-225)',
 	'user_operator_counterexample': 'known finding operator-operand-indirect-subclass: the full sentence (y of ANY descendant of P: user_operator_statement) is false on the code — nu + b2 with Big2(Big(Num)) is typed Big, CPython: Num (corpus witness 44)',
+	'user_operator_step / user_chain_type': 'a flat chain x op1 y op2 z … over instances of user classes, every step within the decidable form (directOk) of the hypotheses above: each_binary_operator (left to right, the previous RESULT as receiver) answers the type CPython\'s left-nested evaluation dispatches to (induction on the chain)',
+	'user_operator_repaired': 'on the model of try_operation with proposed/C03-operator-operand-indirect-subclass.diff applied (all ancestors of the operand compared) the FULL sentence user_operator_statement holds: an operand of any descendant class is typed by the left operand\'s method',
 	'spread_items / sound_spread': 'on_spread (first type argument) equals the loop-variable type iterates answers for a list, a dict (keys) and Iterator<T> sources, for EVERY element type; hence the items CPython spreads conform to it (through sound_iter)',
 	'spread_tuple_counterexample': 'known finding spread-first-type-argument: for t = (1, "a") : tuple[int, str] on_spread answers int, CPython spreads a str too',
 	'list_literal_counterexample': 'known finding list-literal-class-dedup: [[None], [1]] is typed list<list<int>> (outside Core)',
